@@ -9,6 +9,7 @@ import struct
 from vlib import flow, lean, repo, stream
 from vlib.common import fresh_scratch, log, run
 from checks import C04_gen
+from checks.C04_f32 import f32_bits
 
 MANIFEST = {
     "text": "Lean theorems over an executable model of the binary file format (header bytes and parser, magic strings, "
@@ -39,6 +40,9 @@ REQUIRED = ["KV.C04.header_roundtrip", "KV.C04.magic_distinct", "KV.C04.recogniz
 REQUIRED_TRIE = ["KV.C03Trie.trie_refines", "KV.C03Trie.trie_prob", "KV.C03Trie.trie_refines_of_check",
                  "KV.C03Trie.quant_structural", "KV.C03Trie.table_structural", "KV.C03Trie.quant_structural_tries", "KV.C03Trie.ExamplePlain.represents", "KV.C03Trie.ExampleQuantArray.represents",
                  "KV.C03Trie.ExampleBuilt.built_represents", "KV.C03Trie.ExampleBuilt.built_eq_real_file"]
+
+REQUIRED_TRIEBUILD = ["KV.C03TrieBuild.trie_write_frame", "KV.C03TrieBuild.key_order",
+                      "KV.C03TrieBuild.trie_build_represents_partial", "KV.C03TrieBuild.visit_invariant"]
 
 TYPE_NAMES = ["probing", "rest-probing", "trie", "quant-trie", "array-trie", "quant-array-trie"]
 
@@ -334,6 +338,106 @@ def trielm_stream(ctx, pair, model, ty, cfg, path, enum_ref, stored):
     return out
 
 
+
+# --------------------------------------------------------------------------- model builder vs real builder
+def gram_tokens(grams, order, ids, saw_unk):
+    """grams: {n: {forward words tuple: (prob_text, backoff_text or None)}} -> `ids:probbits:backoffbits` tokens as
+    read_arpa.cc parses them (positive prob clamped to 0, zero / absent back-off = -0.0, no back-off at the top order)."""
+    toks = []
+    for n in sorted(grams):
+        for g, (pt, bt) in grams[n].items():
+            p = f32_bits(pt)
+            if p < 0x80000000 and p != 0:
+                p = 0
+            b = 0x80000000
+            if bt is not None and n < order:
+                b = f32_bits(bt)
+                if b in (0, 0x80000000):
+                    b = 0x80000000
+            key = [ids.get(w, 0) for w in g][::-1]
+            toks.append(",".join(map(str, key)) + ":%d:%d" % (p, b if n < order else 0))
+    if not saw_unk:
+        toks.append("0:%d:0" % f32_bits("-100"))     # hallucinated <unk>: unknown_missing_logprob, back-off +0.0
+    return toks
+
+
+def grams_of_entries(model):
+    out = {}
+    for k, ents in model["entries"].items():
+        d = out.setdefault(int(k), {})
+        for g, line in ents:
+            parts = line.split("\t")
+            d[tuple(g)] = (parts[0], parts[2] if len(parts) > 2 else None)
+    return out
+
+
+def triebuild_stream(ctx, pair, d, arpa_bytes, grams, order, tag):
+    """The Lean builder (Model/TrieBuild.lean: visit order, blanks with float back-off sums, extension marks, then the fold
+    TrieLM.ofTable) runs on the parsed n-grams; its memory must equal, byte for byte, the search region of the file the real
+    `build_binary trie` wrote.  The array / quantised variants are compared through lookups (structure; values if unquantised)."""
+    out = []
+    arpa = os.path.join(d, "tb.arpa")
+    with open(arpa, "wb") as f:
+        f.write(arpa_bytes)
+    files = {ty: os.path.join(d, "tb%d.bin" % ty) for ty in (2, 4, 5)}
+    ops = []
+    for ty in (2, 4, 5):
+        ops += ["build A%d %d %s %s after 0 1 %d 5 4 %d" % (ty, ty, arpa, files[ty], MULTS[0], 3), "free A%d" % ty if ty != 2 else "enumdump A2"]
+    ops += ["hdrparse " + files[2]]
+    rc, o, e = pair.harness(ops)
+    if rc != 0 or len(o) != len(ops):
+        return [("harness died while building the trie files (rc=%s)" % rc, {"stderr": e[-1500:]})]
+    if not o[0].startswith("ok"):
+        ctx.hist("triebuild", "unloadable:" + o[0])
+        # error class: the model builder must reject it too (checked below with the ARPA-order ids we cannot know) -> skipped
+        return []
+    ids = {}
+    for pr in o[1].split()[1:]:
+        i, hx = pr.split("=", 1)
+        ids[bytes.fromhex(hx).decode("utf-8", "replace")] = int(i)
+    counts = list(map(int, o[-1].split("counts=")[1].split(",")))
+    saw_unk = any(g[0] in ("<unk>", "<UNK>") for g in grams[1])
+    toks = gram_tokens(grams, order, ids, saw_unk)
+    with open(files[2], "rb") as f:
+        data = f.read()
+    search = ((88 + 20 + 8 * order - 1) // 8 + 1) * 8 + 8 + 8 * counts[0]
+    keys = [t.split(":")[0].replace(",", " ") for t in toks]
+    ctx.rng.shuffle(keys)
+    keys = keys[:200]
+    dops = ["triebuild %d %d %d %s %s" % (order, counts[0], search, " ".join(toks), data[search:].hex())] + ["trieq " + k for k in keys]
+    rc2, o2, e2 = pair.driver(dops, timeout=600)
+    if rc2 != 0 or len(o2) != len(dops):
+        return [("driver failed in triebuild", {"rc": rc2, "stderr": e2[-800:]})]
+    ctx.count(("triebuild", tag, hashlib.sha256(arpa_bytes).hexdigest()), nontrivial=len(toks) > 8)
+    res = o2[0]
+    blanks = res.split("blanks=")[1].split()[0] if "blanks=" in res else "?"
+    ctx.hist("triebuild", "equal" if res.endswith("equal") else res.split()[1] + ("" if res.startswith("tb ok") else " " + res.split()[-1]))
+    ctx.hist("triebuild.blanks", min(int(blanks), 50) if blanks.isdigit() else blanks)
+    if "represents=false" in res:
+        out.append(("the verified checker rejects the trie built by the Lean builder (Represents (ofTable ..) fails on this model)",
+                    {"driver": res[:300], "ngrams": len(toks)}))
+    if not res.startswith("tb ok") or not res.endswith(" equal") or ("counts=" + ",".join(map(str, counts))) not in res:
+        out.append(("the trie memory built by the Lean builder differs from the search region the real build_binary wrote",
+                    {"driver": res[:300], "real_counts": counts, "ngrams": len(toks)}))
+        return out
+    # array / quantised variants: same structure (child ranges), same values when not quantised
+    for ty in (4, 5):
+        rc3, o3, e3 = pair.harness(["load T %d %s 0 0" % (ty, files[ty])] + ["trieq T " + k for k in keys])
+        if rc3 != 0 or len(o3) != len(keys) + 1:
+            out.append(("harness died on the %s file" % TYPE_NAMES[ty], {"stderr": e3[-800:]}))
+            continue
+
+        def strip(line):
+            return " ".join(":".join([t.split(":")[0]] + t.split(":")[3:]) if t[:2] in ("u:", "m:") else t.split(":")[0] for t in line.split())
+        for k, a, b in zip(keys, o3[1:], o2[1:]):
+            same = (a == b) if ty == 4 else (strip(a) == strip(b))
+            if not same:
+                out.append(("lookups in the real %s differ from the trie built by the Lean builder" % TYPE_NAMES[ty],
+                            {"key_ids": k, "impl": a, "model": b}))
+                break
+    return out
+
+
 def full_grid():
     g = []
     for name in ("m1", "a0", "m0", "a1"):
@@ -450,19 +554,25 @@ def run(ctx):
         flow.report_obligation_failures(ctx, problems, False)
         return
     problems, consts = flow.proof_phase(ctx, "C04", probe="probe_C04.cc", probe_flags=flags, required=REQUIRED,
-                                        targets=["Properties.C04", "Properties.C03Trie"], drivers=["drv_C04"])
+                                        targets=["Properties.C04", "Properties.C03Trie", "Properties.C03TrieBuild"], drivers=["drv_C04"])
     # the trie clause of C03 (Properties/C03Trie.lean) is owned by this builder: audited here as well
     if not any("lake build failed" in p_ for p_ in problems):
         o1, d1, t1 = ctx.cov["obligations"], ctx.cov["discharged"], list(ctx.cov.get("theorems", []))
-        problems += lean.audit(ctx, "C03Trie", REQUIRED_TRIE)
-        ctx.cov["obligations"] += o1
-        ctx.cov["discharged"] += d1
-        ctx.cov["theorems"] = t1 + ctx.cov.get("theorems", [])
+        for pid2, req2 in (("C03Trie", REQUIRED_TRIE), ("C03TrieBuild", REQUIRED_TRIEBUILD)):
+            problems += lean.audit(ctx, pid2, req2)
+            o1, d1 = o1 + ctx.cov["obligations"], d1 + ctx.cov["discharged"]
+            t1 = t1 + ctx.cov.get("theorems", [])
+        ctx.cov["obligations"], ctx.cov["discharged"], ctx.cov["theorems"] = o1, d1, t1
     ok, hexe, lg = repo.harness("c04.cc", libs=True, config="asan")
     if not ok:
         problems.append(lg)
         flow.report_obligation_failures(ctx, problems, False)
         return
+    # private copy: the shared build cache is pruned by concurrent builders (the executable vanished mid-run once)
+    from vlib.common import scratch_dir
+    hcopy = os.path.join(scratch_dir("c04_exe"), "c04_%d" % os.getpid())
+    shutil.copy2(hexe, hcopy)
+    hexe = hcopy
     dexe = lean.driver_path("drv_C04")
     if not os.path.exists(dexe):
         flow.report_obligation_failures(ctx, problems + ["driver drv_C04 was not built"], False)
@@ -473,6 +583,7 @@ def run(ctx):
     try:
         rng = ctx.rng
         quick = ctx.tier == "quick"
+        os.makedirs(os.path.join(d, "tbd"), exist_ok=True)
         n_models = 30 if quick else 500
         models = []
         # fixed coverage first: every order, with/without <unk>, closed/pruned, then random
@@ -494,6 +605,10 @@ def run(ctx):
             ctx.hist("model.needs_blanks", model["needs_blanks"])
             ctx.hist("model.ngrams", len(str(sum(model["counts"]))))
             types = list(range(6))
+            tb = triebuild_stream(ctx, pair, os.path.join(d, "tbd"), model["text"], grams_of_entries(model), model["order"], "c04gen")
+            for what, detail in tb[:2]:
+                ctx.violation("correspondence: " + what, {"stream": "triebuild", "arpa_text": model["text"].decode("utf-8", "replace")[:4000], "detail": detail}, no_input=True)
+                problems.append("triebuild correspondence broken: " + what)
             if not quick or mi % 2 == 0:
                 pass
             for ty in types:
@@ -551,6 +666,18 @@ def run(ctx):
                     if os.path.exists(src):
                         sample_file = os.path.join(d, "sample.bin")
                         shutil.copy(src, sample_file)
+        # the same with the generator of the lm builder (SRI-pruned chains, shared multi-level blanks, odd values)
+        from checks import lmgen
+        for ci in range(10 if quick else 200):
+            c = lmgen.gen_case(rng, size="small" if quick else rng.choice(["small", "medium"]),
+                               force={"kind": rng.choice(["pruned", "pruned", "corpus", "random"])})
+            ctx.hist("triebuild.lmgen_kind", c.meta.get("kind"))
+            tb = triebuild_stream(ctx, pair, os.path.join(d, "tbd"), c.arpa, c.grams, c.meta["order"], "lmgen")
+            for what, detail in tb[:2]:
+                ctx.violation("correspondence: " + what, {"stream": "triebuild", "arpa_text": c.arpa.decode("utf-8", "replace")[:4000], "detail": detail}, no_input=True)
+                problems.append("triebuild correspondence broken: " + what)
+            if len(ctx.violations) >= 6:
+                break
         # component streams
         ops = component_ops(rng, 1500 if quick else 20000)
         # replay of the Lean witness quant_lossy_when_count_exceeds_bins on the real quantiser: -0.25 x3, -0.75, one bit
@@ -589,6 +716,10 @@ def run(ctx):
             found = header_mutation_stream(ctx, pair, d, sample_file) or found
     finally:
         shutil.rmtree(d, ignore_errors=True)
+        try:
+            os.unlink(hcopy)
+        except OSError:
+            pass
     ctx.cov["rule"] = ("binary: one evaluation = one load of a written file (model x type x config x file variant x load_method x "
                        "enumerate_vocab) compared with the ARPA-built model on a query file; non-trivial when the load succeeds and the "
                        "model has >= 8 n-grams; distinct by (ARPA hash, type, config, file variant, load method, enumerate). component: "
